@@ -24,7 +24,11 @@ func appendCon(r *world.Rng, nCur, nMax int) (ref.Con, string) {
 		k := r.Range(1, min(n, 4))
 		l := distinctLits(r, n, k)
 		if r.Bool(0.2) {
-			l = append(l, l[r.Intn(len(l))])
+			x := l[r.Intn(len(l))]
+			l = append(l, x)
+			if r.Bool(0.35) {
+				l = append(l, x) // three copies of the same literal
+			}
 		}
 		if r.Bool(0.03) {
 			l = []int{}
@@ -211,6 +215,26 @@ func explainInstance(r *world.Rng, maxN, maxM int) (int, [][]int) {
 		}
 	case 2: // pigeonhole 3 into 2
 		n, cl = pigeon(3, 2)
+	case 4: // gated core: a core that needs search, every clause weakened by -g, and g forced by a clause that may repeat its literal
+		var core [][]int
+		if r.Bool(0.5) {
+			n, core = pigeon(3, 2)
+		} else {
+			n, core = 2, [][]int{{1, 2}, {1, -2}, {-1, 2}, {-1, -2}}
+		}
+		g := n + 1
+		n++
+		for _, c := range core {
+			cl = append(cl, append(append([]int{}, c...), -g))
+		}
+		force := []int{g}
+		for i := 0; i < r.Pick(0, 1, 1, 2); i++ {
+			force = append(force, g)
+		}
+		cl = append(cl, force)
+		if r.Bool(0.4) {
+			cl = append(cl, distinctLits(r, n, r.Range(2, 3)))
+		}
 	case 3: // implication chain
 		n = r.Range(2, min(maxN, 6))
 		for i := 1; i < n; i++ {
@@ -224,6 +248,22 @@ func explainInstance(r *world.Rng, maxN, maxM int) (int, [][]int) {
 	}
 	if r.Bool(0.3) && len(cl) > 0 { // repeated clause
 		cl = append(cl, append([]int{}, cl[r.Intn(len(cl))]...))
+	}
+	if r.Bool(0.2) && len(cl) > 0 { // a clause that repeats a literal (possibly nothing but one literal, several times)
+		i := r.Intn(len(cl))
+		c := append([]int{}, cl[i]...)
+		if len(c) > 0 {
+			x := c[r.Intn(len(c))]
+			if r.Bool(0.4) {
+				c = []int{x, x}
+				if r.Bool(0.3) {
+					c = append(c, x)
+				}
+			} else {
+				c = append(c, x)
+			}
+			cl[i] = c
+		}
 	}
 	if len(cl) > maxM {
 		cl = cl[:maxM]
@@ -241,6 +281,9 @@ func genC07(r *world.Rng, w *world.World, big bool) {
 	t := world.TaskSpec{Kind: "mus", N: n, Clauses: cl, Entry: r.PickS("MUS", "MUSDeletion", "MUSInsertion", "MUSMaxSat")}
 	t.Text = dimacsText(r, n, cl, true)
 	t.Chunks = chunks(r)
+	if r.Bool(0.4) { // a second extraction on the same Problem value
+		t.Route = r.PickS("MUS", "MUSDeletion", "MUSInsertion", "UnsatSubset", "MUSMaxSat")
+	}
 	w.Tasks = []world.TaskSpec{t}
 	knobs(r, w)
 	schedMulti(r, w)
